@@ -2,6 +2,7 @@ package limiter
 
 import (
 	"fmt"
+	"sort"
 	"strconv"
 )
 
@@ -70,7 +71,6 @@ func judge(cfg tcfg, steps []tstep, obs []tobs) *judgement {
 	a := algoCfg{sliding: cfg.Sliding, E: uint64(cfg.E)}
 	j := &judgement{}
 	keys := map[int]*kstate{}
-	out := make([]byte, 0, len(steps))
 
 	sig := func(clause, class string) string {
 		if class == "" {
@@ -85,19 +85,51 @@ func judge(cfg tcfg, steps []tstep, obs []tobs) *judgement {
 		return (cfg.SkipOK && status < 400) || (cfg.SkipFailed && status >= 400)
 	}
 
-	for i, st := range steps {
-		o := obs[i]
-		if !o.Ran {
-			out = append(out, '-')
-			continue
+	// Events in execution order: every request contributes a hit (when it was sent) and an end
+	// (when its response arrived — the instant a skipped request is taken back). In a sequential
+	// history the end follows its hit immediately; with slow handlers running beside the history
+	// (overlap family) other requests' hits and ends lie in between.
+	type event struct {
+		seq int64
+		i   int
+		end bool
+	}
+	var evs []event
+	for i := range steps {
+		if obs[i].Ran {
+			evs = append(evs, event{obs[i].Seq, i, false}, event{obs[i].EndSeq, i, true})
 		}
+	}
+	sort.SliceStable(evs, func(x, y int) bool { return evs[x].seq < evs[y].seq })
+	xs := make([]dverdict, len(steps)) // verdict of each judged hit, for its refund
+	refunds := make([]bool, len(steps))
+	outc := make([]byte, len(steps))
+	for i := range outc {
+		outc[i] = '-'
+	}
+
+	for _, ev := range evs {
+		i := ev.i
+		st, o := steps[i], obs[i]
 		ks := keys[st.Key]
 		if ks == nil {
 			ks = &kstate{}
 			keys[st.Key] = ks
 		}
+		if ev.end {
+			// ---- the request is over: take the hit back if the skip options say so
+			if !refunds[i] || ks.dead {
+				continue
+			}
+			j.Refunds++
+			if !ks.w.refund(a, o.TEnd, xs[i]) {
+				ks.lastLate, ks.hadLate = true, true
+			}
+			ks.hadRefund = true
+			continue
+		}
 		if ks.dead {
-			out = append(out, 'x')
+			outc[i] = 'x'
 			continue
 		}
 		maxReq := cfg.Max
@@ -134,11 +166,13 @@ func judge(cfg tcfg, steps []tstep, obs []tobs) *judgement {
 		if ks.lastLate {
 			hint = " [the previous request on this key was refunded after the window of its hit had ended]"
 		}
+		ks.lastLate = false
 		trunc, real := x.admits(maxReq)
 
 		// Documented: "requests with StatusCode >= 400 (< 400) won't be counted" — the status
 		// code of a request is the one the client receives.
 		refund := entered && qual(o.Status)
+		xs[i], refunds[i] = x, refund
 
 		j.Judged++
 		if v.gap {
@@ -184,10 +218,10 @@ func judge(cfg tcfg, steps []tstep, obs []tobs) *judgement {
 				j.HeaderDiffs++
 			}
 			j.Admitted++
-			out = append(out, 'A')
+			outc[i] = 'A'
 		} else {
 			j.Rejected++
-			out = append(out, 'R')
+			outc[i] = 'R'
 			if o.Status != 429 {
 				add(i, sig("reject-status", ""), fmt.Sprintf("request did not reach the handler but the status is %d", o.Status))
 			}
@@ -198,19 +232,10 @@ func judge(cfg tcfg, steps []tstep, obs []tobs) *judgement {
 			}
 		}
 
-		// ---- refund
-		ks.lastLate = false
-		if refund {
-			j.Refunds++
-			if !ks.w.refund(a, o.TEnd, x) {
-				ks.lastLate, ks.hadLate = true, true
-			}
-			ks.hadRefund = true
-		}
 		if violated {
 			ks.dead, ks.violated = true, true
 		}
 	}
-	j.Outcome = string(out)
+	j.Outcome = string(outc)
 	return j
 }
